@@ -395,9 +395,8 @@ func checkClone(p *Program, r *Report, pv *Prov) {
 			continue
 		}
 		n++
-		if !pth.HasMatching(func(name string, val bool) bool {
-			return val && strings.HasPrefix(name, "(== param:t.escapeErr nil)")
-		}) {
+		// the receiver must not have been analysed: the conditions on the path are only possible for a fresh record
+		if ts := discoverTmplStatus(p); !ts.pathImplies(pe, pth, "fresh") {
 			okRecv = false
 		}
 		// the per-template marks can be lost (New with the name of an executed template replaces it by
@@ -425,8 +424,15 @@ func checkClone(p *Program, r *Report, pv *Prov) {
 		hasNil := allPathsGuard(pv, alBlock, func(a Atom) bool {
 			return !a.Pol && a.E.Op == "binop" && a.E.Name == "==" && a.E.Args[0].Op == "lookup" && a.E.Args[1].Op == "const" && a.E.Args[1].Const == nil
 		}, 0)
+		// … and the member's record is the fresh one: on every path some test excludes "analysed successfully" and some
+		// test excludes "failed" (one and the same test, src.escapeErr == nil, in the usual representation)
+		ts := discoverTmplStatus(p)
 		hasErr := allPathsGuard(pv, alBlock, func(a Atom) bool {
-			return a.Pol && a.E.Op == "binop" && a.E.Name == "==" && a.E.Args[0].Op == "field" && a.E.Args[0].Name == "escapeErr" && a.E.Args[0].Args[0].Op == "lookup"
+			v, pol := atomCond(a)
+			return v != nil && ts.condExcludes(v, pol, "ok")
+		}, 0) && allPathsGuard(pv, alBlock, func(a Atom) bool {
+			v, pol := atomCond(a)
+			return v != nil && ts.condExcludes(v, pol, "failed")
 		}, 0)
 		if !hasNil || !hasErr {
 			okMember = false
